@@ -184,6 +184,8 @@ def do_op(kind, w, buf, src, op, digit):
     """Execute one operation on the implementation; returns a raw result tuple."""
     import miniaudio
     t = op[0]
+    if t in ("pbegin", "pend"):          # markers around a metadata probe (no call on the implementation)
+        return ("none",)
     if t == "prot":
         from pyatv.exceptions import InvalidStateError
         try:
@@ -251,6 +253,69 @@ def drain_ops(case, w, buf, src, digit, ops, raw, feeder=None):
             empties = 0
 
 
+class FakeTag:
+    title, artist, album, duration = "verif", None, None, 1.0
+
+
+_PROBE = {"loop": None}
+
+
+def do_probe(kind, w, buf, src, script, raises, emit):
+    """Metadata probing as the library does it: the REAL get_buffered_io_metadata (audio_source) and the real
+    get_metadata/_open_file (support.metadata) run on a recording stand-in for the wrapper; only TinyTag is
+    replaced: its place is taken by a scripted sequence of reads and seeks (a tag parser is an arbitrary
+    reader of the file object).  Every call that reaches the wrapper is recorded as an ordinary operation."""
+    import asyncio as real_asyncio
+    import pyatv.support.metadata as M
+    A = audio_source()
+
+    class Recorder(io.BufferedIOBase):
+        name = "stream"
+
+        def read(self, n=-1):
+            return emit(("read", -1 if n is None else n, None))
+
+        def seek(self, pos, origin=io.SEEK_SET):
+            return emit(("seek", pos, {0: True, 1: False}.get(origin, 2)))
+
+        def tell(self):
+            return w.tell()
+
+        def seekable(self):
+            return True
+
+        def readable(self):
+            return True
+
+    class Tiny:
+        @staticmethod
+        def get(filename=None, file_obj=None, **kw):
+            for op in script:
+                if op[0] == "read":
+                    file_obj.read(op[1])
+                else:
+                    file_obj.seek(op[1], (io.SEEK_SET, io.SEEK_CUR, io.SEEK_END)[whence(op[2])])
+            if raises:
+                raise ValueError("no tag found")
+            return FakeTag()
+
+    if _PROBE["loop"] is None:
+        _PROBE["loop"] = real_asyncio.new_event_loop()
+    loop = _PROBE["loop"]
+    emit(("pbegin", buf.position))
+    old_tiny, M.TinyTag = M.TinyTag, Tiny
+    old_log = (A.logging.exception, A.logging.warning)
+    A.logging.exception = A.logging.warning = lambda *a, **k: None
+    real_asyncio.set_event_loop(loop)
+    try:
+        md = loop.run_until_complete(A.get_buffered_io_metadata(Recorder()))
+    finally:
+        real_asyncio.set_event_loop(None)
+        M.TinyTag = old_tiny
+        A.logging.exception, A.logging.warning = old_log
+    emit(("pend", md.title is None))
+
+
 def run_impl(case):
     """Run the case on the implementation.  Returns (ops actually executed, observations) where an
     observation is dict(res=..., pos, size, rem, src, prot); data results are decoded to runs of
@@ -264,15 +329,25 @@ def run_impl(case):
     feeder = 0
     maxoff = length
     try:
+        def emit(op):
+            ops.append(op)
+            r = do_op(kind, w, buf, src, op, 0)
+            raw.append((r, snapshot(buf, src)))
+            return r[1] if len(r) > 1 else None
+
         for op in case["ops"]:
-            if op[0] == "addf":                 # offer the next n bytes of the feeder, honour the result
+            if op[0] == "probe":
+                do_probe(kind, w, buf, src, [tuple(x) for x in op[1]], op[2], emit)
+                continue
+            fed = op[0] == "addf"
+            if fed:                             # offer the next n bytes of the feeder, honour the result
                 op = ("add", [(feeder, op[1])])
             ops.append(op)
             r = do_op(kind, w, buf, src, op, 0)
             if op[0] == "add":
                 for (o, l) in op[1]:
                     maxoff = max(maxoff, o + l)
-                if case["ops"][len(ops) - 1][0] == "addf":
+                if fed:
                     feeder += r[1]
             raw.append((r, snapshot(buf, src)))
         drain_ops(case, w, buf, src, 0, ops, raw)
@@ -330,6 +405,7 @@ def oracle(case, ops, obs):
     prev_pos = 0
     pending_seek = None       # last successful seek not yet confirmed by a non-empty read
     taint = None              # set once a seek reported success in a situation of a recorded finding
+    probe = None              # inside a metadata probe: cursor at its start, whether its rewind succeeded
 
     def fail(key, msg, i):
         if taint is not None:
@@ -351,6 +427,19 @@ def oracle(case, ops, obs):
             if k > len(flat):
                 return fail("C17:%s:add-count" % name, "add() reports more bytes than offered", i)
             acc.extend(flat[:k])
+        elif t == "pbegin":
+            probe = {"before": c, "rewound": None, "i": i, "prot": ob["prot"], "maxpos": ob["pos"]}
+        elif t == "pend":
+            # the reader that follows the probe must find the stream where it was (or honestly rewound to 0)
+            # (with an unprotected headroom a parser that reads past the headroom discards it itself: no way back)
+            if probe is not None and (probe["prot"] or probe["maxpos"] < case["head"]) and c not in (probe["before"], 0):
+                return fail("C17:%s:probe-moved-position" % name, "metadata probe started at offset %d and left the stream at "
+                            "offset %d: the bytes in between are lost for the reader that follows"
+                            % (probe["before"], c), i)
+            if probe is not None and probe["rewound"] is False and not op[1]:
+                return fail("C17:%s:probe-without-rewind" % name, "metadata returned although the stream could not be "
+                            "rewound", i)
+            probe = None
         elif t == "seek":
             p, wh = op[1], whence(op[2])
             start = wh == 0
@@ -369,6 +458,8 @@ def oracle(case, ops, obs):
                 if kind == "sio":
                     return fail(SIO_KEY, msg, i)           # the adapter says True, the wrapped reader did not move there
                 return fail("C17:%s:seek-true-for-negative-offset" % name, msg, i)
+            if probe is not None and probe["rewound"] is None:
+                probe["rewound"] = bool(ok) and target == 0        # the helper's first call: seek(0)
             if ok:
                 if taint is None and kind in ("srw", "ssw") and prev_pos != c:
                     taint = (KNOWN_BYPASS, "seek(%d) at op %d reported success while buffer.position (%d) was stale "
@@ -386,6 +477,10 @@ def oracle(case, ops, obs):
             total = sum(l for (_, l) in runs)
             if n >= 0 and total > n:
                 return fail("C17:%s:over-read" % name, "read(%d) returned %d bytes" % (n, total), i)
+            if total and probe is not None and probe["rewound"] is False:
+                return fail("C17:%s:probe-consumes-without-rewind" % name, "the stream could not be rewound (seek(0) at op %d "
+                            "was refused) but the metadata probe went on and consumed %d bytes at offset %d"
+                            % (probe["i"] + 1, total, c), i)
             if total:
                 if kind == "buf":
                     exp = rle(acc[c:c + total]) if c + total <= len(acc) else None
@@ -419,6 +514,8 @@ def oracle(case, ops, obs):
                                 "(protected=%s, remaining=%d)" % (n, c, length, ob["prot"], ob["rem"]), i)
         prev_pos = ob["pos"]
         prev_src, prev_size = ob["src"], ob["size"]
+        if probe is not None:
+            probe["maxpos"] = max(probe["maxpos"], ob["pos"])
     return None
 
 
@@ -477,6 +574,9 @@ def c_obs(ob):
 
 
 def coq_case(case, ops, obs):
+    if obs:
+        keep = [j for j, o in enumerate(ops) if o[0] not in ("pbegin", "pend")]
+        ops, obs = [ops[j] for j in keep], [obs[j] for j in keep]
     return "(%s, %s, %s, %s, %s,\n  [%s],\n  [%s])" % (
         COQKIND[case["kind"]], cnum(case["size"]), cnum(case["head"]), common.cbool(case["prot"]),
         cnum(case["len"]), "; ".join(c_op(o) for o in ops),
@@ -1486,6 +1586,92 @@ def pick_cap(rng, size):
     return rng.randint(1, max(1, size))
 
 
+def gen_probe(rng, size, head, length):
+    """What a tag parser does with the file object: a few reads and seeks (TinyTag starts with seek(0, END))."""
+    script = []
+    if rng.random() < 0.5:
+        script += [("seek", 0, 2), ("seek", 0, True)]
+    for _ in range(rng.randint(0, 5)):
+        if rng.random() < 0.65:
+            script.append(("read", rng.choice([1, 2, 4, head, size, size + 1, max(1, head - 1), rng.randint(1, 2 * size)]), None))
+        else:
+            script.append(("seek", rng.choice([0, 1, head - 1, head, size, rng.randint(0, size + 2), -1, -4]),
+                           rng.choice([True, True, False, 2])))
+    return ("probe", script, rng.random() < 0.25)
+
+
+def probe_cases():
+    """Metadata probing at position 0, inside the headroom, at its end, past it and past the buffer; with parsers
+    that read nothing, a little, more than the buffer, or look at the end first; once and twice in a row."""
+    for kind in ("bio", "ssw"):
+        for (size, head) in ((4, 2), (8, 4), (8, 8)):
+            for prot in (False, True):
+                for first in (0, 1, head, head + 1, size + 1):
+                    for script in ([], [("read", 1, None)], [("read", size + 2, None)],
+                                   [("seek", 0, 2), ("seek", 0, True), ("read", head, None), ("read", 1, None)]):
+                        for raises in (False, True):
+                            for twice in (False, True):
+                                ops = [("read", first, None)] if first else []
+                                ops += [("probe", script, raises)] * (2 if twice else 1)
+                                yield {"kind": kind, "size": size, "head": head, "prot": prot, "len": 3 * size + 1,
+                                       "ops": ops, "rewind": prot, "drain": 3, "drain_max": 24}
+
+
+def real_tinytag_check(ctx):
+    """get_buffered_io_metadata with the real TinyTag on a WAV stream through both io-style wrappers, the way
+    BufferedIOBaseSource.open uses it (64 KiB / 32 KiB, protected) and on an unprotected wrapper past its headroom:
+    the reader that follows must get the source from where it was (or from 0 after an honest rewind)."""
+    import asyncio as real_asyncio
+    import struct
+    A = audio_source()
+    from pyatv.support.buffer import SemiSeekableBuffer
+    payload = bytes((i * 13 + (i >> 8)) & 255 for i in range(150000))
+    source = (b"RIFF" + struct.pack("<I", 36 + len(payload)) + b"WAVEfmt " + struct.pack("<IHHIIHH", 16, 1, 2, 44100, 176400, 4, 16)
+              + b"data" + struct.pack("<I", len(payload)) + payload)
+    if _PROBE["loop"] is None:
+        _PROBE["loop"] = real_asyncio.new_event_loop()
+    loop = _PROBE["loop"]
+    old_log = (A.logging.exception, A.logging.warning)
+    A.logging.exception = A.logging.warning = lambda *a, **k: None
+    try:
+        for kind in ("bio", "ssw"):
+            for (size, head, prot, first) in ((65536, 32768, True, 0), (65536, 32768, True, 1000), (65536, 32768, True, 40000),
+                                              (65536, 32768, False, 0), (65536, 32768, False, 40960), (256, 128, False, 200)):
+                buf = SemiSeekableBuffer(size, seekable_headroom=head, protected_headroom=prot)
+                if kind == "bio":
+                    w = A.BufferedIOBaseWrapper(FileSource(source), buf)
+                else:
+                    w = A.StreamableSourceWrapper(A.StreamReaderWrapper(StreamSource(source), buf), buf)
+                c = 0
+                while c < first:
+                    d = w.read(min(4096, first - c))
+                    if not d:
+                        break
+                    c += len(d)
+                real_asyncio.set_event_loop(loop)
+                try:
+                    loop.run_until_complete(A.get_buffered_io_metadata(w))
+                    loop.run_until_complete(A.get_buffered_io_metadata(w))
+                finally:
+                    real_asyncio.set_event_loop(None)
+                ctx.count("real-tinytag-probes", 2)
+                pos = w.tell()
+                replay = {"case": {"kind": kind, "size": size, "head": head, "prot": prot, "len": len(source)},
+                          "note": "real TinyTag on a WAV stream, %d bytes read before two probes" % c}
+                if pos not in (c, 0):
+                    ctx.violation("C17:%s:probe-moved-position" % KEY[kind], "real TinyTag probe at offset %d left the "
+                                  "stream at %d" % (c, pos), replay)
+                    continue
+                got = w.read(3000)
+                if prot and buf.remaining == 0 and not got:
+                    continue
+                if got != source[pos:pos + len(got)] or not got:
+                    ctx.violation("C17:%s:wrong-bytes" % KEY[kind], "after a real TinyTag probe at offset %d (position now %d) "
+                                  "the next read does not continue there" % (c, pos), replay)
+    finally:
+        A.logging.exception, A.logging.warning = old_log
+
+
 def gen_wrapper_case(rng, kind, size, head, nops):
     prot = rng.random() < 0.6
     length = rng.choice([0, 1, head, size, size + 1, 2 * size, 2 * size + 3, 3 * size + 1,
@@ -1516,6 +1702,10 @@ def gen_wrapper_case(rng, kind, size, head, nops):
                 ops.append(("seek", off, 2 if kind in ("bio", "ssw") else False))
         else:
             ops.append(("prot", rng.random() < 0.3))
+        if kind in ("bio", "ssw") and rng.random() < 0.12:
+            ops.append(gen_probe(rng, size, head, length))
+            if rng.random() < 0.3:
+                ops.append(gen_probe(rng, size, head, length))          # twice in a row
     return {"kind": kind, "size": size, "head": head, "prot": prot, "len": length, "ops": ops,
             "rewind": rng.random() < 0.5, "drain": rng.choice([1, 2, 3, max(1, size // 2), size, size + 1]),
             "drain_max": 40}
@@ -1727,6 +1917,10 @@ def run(ctx):
                 case["drain"] = rng.choice([4096, 8192, 1000, 16384, size, size // 2 + 1])
                 case["drain_max"] = 30
             evaluate(ctx, case, "generated", coq_items)
+    # 3b. metadata probing (get_buffered_io_metadata) as an operation of the histories
+    for case in probe_cases():
+        evaluate(ctx, case, "exhaustive", coq_items)
+    real_tinytag_check(ctx)
     # 4. PatchedIceCastClient: download loop and reader interleaved deterministically
     ice_plan = [(4, 1, 2), (4, 2, 1), (8, 4, 2), (8, 3, 3), (16, 8, 4), (64, 32, 8), (65536, 32768, 8192)]
     for j in range(350 * mult):
